@@ -724,6 +724,9 @@ class Interp:
             if decl is not None and (vt is TOP):
                 env[target.id] = decl
             elif decl is not None and isinstance(decl, Poly):
+                # a declared polymorphic local is still checked against what is assigned to it
+                if vt is not TOP and not isinstance(vt, Poly):
+                    self.match(self.inst(decl.spec), value_t, node, f"local {target.id} (declared {decl.spec})")
                 env[target.id] = decl
             else:
                 env[target.id] = value_t
